@@ -53,6 +53,9 @@ def cases(tier):
     for i in range(0, len(dl), 4):
         out.append({"k": "real", "ts": dl[i : i + 4], "rules": "LT02"})
         out.append({"k": "real", "ts": dl[i : i + 4]})
+        # a non-default number of rendering variants (1 = the root variant only) must not change how edits are merged
+        out.append({"k": "real", "ts": dl[i : i + 4], "rules": "LT02", "rvl": 1})
+        out.append({"k": "real", "ts": dl[i : i + 4], "rvl": 2})
     return out
 
 
@@ -82,8 +85,9 @@ def run_real(case, res):
             if "ctx" in case and case["ctx"] != ci:
                 continue
             res["n"] += 1
-            one = {"k": "real", "ts": [t], "ctx": ci, **({"rules": case["rules"]} if case.get("rules") else {})}
-            lnt = sq.linter("ansi", "jinja", rules=case.get("rules", "all"), configs=sq.jinja_ctx_configs(corpus.T_CTX[ci]))
+            one = {"k": "real", "ts": [t], "ctx": ci, **({"rules": case["rules"]} if case.get("rules") else {}), **({"rvl": case["rvl"]} if case.get("rvl") else {})}
+            ov = {"render_variant_limit": case["rvl"]} if case.get("rvl") else {}
+            lnt = sq.linter("ansi", "jinja", rules=case.get("rules", "all"), configs=sq.jinja_ctx_configs(corpus.T_CTX[ci]), **ov)
             try:
                 lf, fixed = fixfam.run_fix(lnt, t)
             except Exception:
